@@ -46,5 +46,6 @@ extern const hx_op ops_c17[];
 extern const hx_op ops_c20[];
 extern const hx_op ops_c10[];
 extern const hx_op ops_c05[];
+extern const hx_op ops_c13[];
 int hx_aead(const char *op, int argc, char **argv, FILE *o);  /* 1 = not an aead op */
 #endif
